@@ -117,7 +117,12 @@ func (c rendererContext) Get(name string) any {
 
 func (c rendererContext) ExpandTagArg() (string, error) {
 	args := c.TagArgs()
-	if strings.Contains(args, "{{") {
+	// the object delimiter the engine is configured with
+	objectLeft := "{{"
+	if d := c.ctx.config.Delims; len(d) == 4 && d[0] != "" {
+		objectLeft = d[0]
+	}
+	if strings.Contains(args, objectLeft) {
 		root, err := c.ctx.config.Compile(args, c.node.SourceLoc)
 		if err != nil {
 			return "", err
